@@ -402,7 +402,10 @@ func (p *Process) stopProcess(cancelReadinessFuncs bool) error {
 		return nil
 	}
 	verifYield("stop.afterIsRunningCheck", p.getName())
-	p.setState(types.ProcessStateTerminating)
+	if !p.setStateIfRunning(types.ProcessStateTerminating) {
+		// it ended by itself since the check above: nothing left to stop
+		return nil
+	}
 	p.stopProbes()
 	if cancelReadinessFuncs {
 		if p.readyProber != nil {
@@ -719,6 +722,20 @@ func (p *Process) setStateIf(from, to string) {
 		p.procState.Status = to
 		p.onStateChange(to)
 	}
+}
+
+// setStateIfRunning moves a running process to the given status; it reports false, and
+// changes nothing, if the process is not (or no longer) running.
+func (p *Process) setStateIfRunning(state string) bool {
+	p.stateMtx.Lock()
+	defer p.stateMtx.Unlock()
+	switch p.procState.Status {
+	case types.ProcessStateRunning, types.ProcessStateLaunched, types.ProcessStateLaunching:
+		p.procState.Status = state
+		p.onStateChange(state)
+		return true
+	}
+	return false
 }
 
 func (p *Process) setState(state string) {
